@@ -1,7 +1,7 @@
 \* the poller driving the storage, split at its waits, against an arbitrary data source and a
-\* moving head: head 0..3, <= 3 slots, any number of ticks
+\* moving head: head 0..2, <= 3 slots, any number of ticks
 CONSTANTS
-  MaxHead = 3
+  MaxHead = 2
   MaxSlots = 3
   MaxTx = 2
   MaxUpd <- Unbounded
